@@ -152,6 +152,49 @@ func TestC15(t *testing.T) {
 					simkit.Global.Inc("fault.corrupt.tx-" + kind)
 				}
 			}
+			// request / response frames of the peer protocol
+			if names, frames, err := p2pFrames(bi); err == nil {
+				for fi, raw := range frames {
+					for j := 0; j < 2; j++ {
+						counter++
+						k := seed + counter*0x9e3779b97f4a7c15
+						bad, kind := corrupt(raw, k)
+						simkit.Global.Inc("fault.corrupt.p2p-" + kind)
+						perr := guarded(func() error {
+							msg, err := pb.DecodeQuaiMessage(bad)
+							if err != nil {
+								simkit.Global.Inc("frames_rejected_by_decoder")
+								return nil
+							}
+							if r := msg.GetRequest(); r != nil {
+								_, _, _, _, _ = pb.DecodeQuaiRequest(r)
+							}
+							if r := msg.GetResponse(); r != nil {
+								if _, payload, err := pb.DecodeQuaiResponse(r); err == nil {
+									switch x := payload.(type) {
+									case *types.WorkObjectBlockView:
+										_ = x.Hash()
+										_ = n.Zone().SanityCheckWorkObjectBlockViewBody(x.WorkObject)
+									case *types.WorkObjectHeaderView:
+										_ = x.Hash()
+										_ = n.Zone().SanityCheckWorkObjectHeaderViewBody(x.WorkObject)
+									case []*types.WorkObjectBlockView:
+										for _, b := range x {
+											_ = b.Hash()
+										}
+									}
+								}
+							}
+							return nil
+						})
+						if perr != nil {
+							fail("no-panic", "entry=p2p-"+names[fi]+" mutation="+kind, fmt.Sprintf("a corrupted %s frame (%d bytes, mutation %s at k=%d) made the decode path panic: %v", names[fi], len(bad), kind, k, perr))
+							return
+						}
+						simkit.Global.Inc("corrupted_frames")
+					}
+				}
+			}
 			// AuxPoW donor data as a peer ships it inside a work object header
 			if err := feedDonorFrames(blk, seed, &counter, fail); err != nil {
 				return
